@@ -1662,7 +1662,7 @@ func (*parser).parse
   ensures p.cur.data == old(p.cur.data)
 
 func (*Context).Parse
-  props C16 C08 C01 C07
+  props C16 C08 C01 C07 C19
   requires ctx != nil
   ghost var parsed bool = false
   ghost at precall 1 p.parse: parsed = true; ghostAssert(p == ctx.parser && isFresh(p) && d == p.cur.data && isFresh(d) && d.codeIndex == 0 && d.ctx == ctx && specSameFlags(d, ctx))
@@ -1670,6 +1670,11 @@ func (*Context).Parse
   ghost at precall 1 p.parse: ghostAssert(ctx.Config.ParseExprLimit != 0 ==> p.recover && p.maxExprCnt == ctx.Config.ParseExprLimit)
   ensures [C16] result == nil ==> parsed
   ensures old(ctx.IsRunning) ==> result != nil
+  // every parse — of a top-level VM or of a sub-VM that compiles a body on demand — selects the context's own message
+  // language before the parser can report anything (C19: the configured language only)
+  ghost var langSet int = 0
+  ghost at precall 1 SetParseErrorLanguage: langSet = langSet + 1; ghostAssert(arg0 == ctx.Config.ParseErrorLanguage)
+  ensures [C19] !old(ctx.IsRunning) ==> langSet == 1
 
 func (*Context).Run
   props C07 C01
